@@ -243,6 +243,76 @@ pub fn det_group(rng: &mut Rng, max_objects: usize, group: usize) -> Vec<String>
             }
         }
     }
+    // histories with in-place edits: the caller owns the map and all of its fields are public, so
+    // a result may depend on the map's *content* only — after any edit made between two
+    // calculations (same allocation, same lengths) the map must still give what a clone of it gives
+    for (i, j) in jobs.iter().enumerate() {
+        let mut m = j.map.clone();
+        for step in 0..3 {
+            let warm = Job { text: j.text.clone(), shape: j.shape, map: m, target: j.target, st: j.st.clone(), spec: j.spec.clone() };
+            let d = warm.st.difficulty();
+            let _ = catch_unwind(AssertUnwindSafe(|| signatures(&warm, &d, &states)));
+            m = warm.map;
+            let what = match (rng.below(5) + step) % 5 {
+                0 => {
+                    m.od = (m.od + 1.7) % 10.0;
+                    m.cs = (m.cs + 0.9) % 10.0;
+                    "od/cs changed"
+                }
+                1 => {
+                    for h in m.hit_objects.iter_mut() {
+                        h.pos.x = 512.0 - h.pos.x;
+                    }
+                    "objects mirrored"
+                }
+                2 => {
+                    for h in m.hit_objects.iter_mut() {
+                        h.start_time = h.start_time * 1.5 + 40.0;
+                    }
+                    "object times stretched"
+                }
+                3 => {
+                    m.slider_multiplier = m.slider_multiplier * 0.75 + 0.2;
+                    m.slider_tick_rate = if m.slider_tick_rate == 1.0 { 2.0 } else { 1.0 };
+                    "slider settings changed"
+                }
+                _ => {
+                    let n = m.hit_objects.len();
+                    if n >= 2 {
+                        m.hit_objects.swap(0, n - 1);
+                        let (a, b) = (m.hit_objects[0].start_time, m.hit_objects[n - 1].start_time);
+                        m.hit_objects[0].start_time = b;
+                        m.hit_objects[n - 1].start_time = a;
+                    }
+                    "first and last object exchanged"
+                }
+            };
+            if m.convert_ref(mode_of(j.target), &d.clone().inspect().mods).is_err() {
+                break;
+            }
+            let edited = Job { text: j.text.clone(), shape: j.shape, map: m, target: j.target, st: j.st.clone(), spec: j.spec.clone() };
+            let fresh = Job { text: j.text.clone(), shape: j.shape, map: edited.map.clone(), target: j.target, st: j.st.clone(), spec: j.spec.clone() };
+            let a = catch_unwind(AssertUnwindSafe(|| signatures(&edited, &d, &states)));
+            let b = catch_unwind(AssertUnwindSafe(|| signatures(&fresh, &d, &states)));
+            evals[i] += 2;
+            match (a, b) {
+                (Ok(a), Ok(b)) => {
+                    for ((name, x), (_, y)) in a.iter().zip(b.iter()) {
+                        if x != y && fails[i].len() < 4 {
+                            fails[i].push(format!(
+                                "{name} on a map edited in place ({what}) differs from the same calculation on a clone of it: {} vs {}",
+                                &x[..x.len().min(300)],
+                                &y[..y.len().min(300)]
+                            ));
+                        }
+                    }
+                }
+                (Err(_), Err(_)) => {}
+                _ => fails[i].push(format!("panic on only one of: map edited in place ({what}) / its clone")),
+            }
+            m = edited.map;
+        }
+    }
     jobs.iter()
         .enumerate()
         .map(|(i, j)| {
